@@ -6,13 +6,16 @@ import os
 from harness import common, tlc
 
 
-def gen(run, P, BL, maxw, maxlen, vals):
+BLV = 2      # the bitlength the conformance runs use
+
+
+def gen(run, P, BL, maxw, maxlen, vals, wide=False):
     with common.scratch("trc_") as d:
         cf = os.path.join(d, "gen.cfg")
-        open(cf, "w").write("SPECIFICATION Spec\nCONSTANT P = %d\nCONSTANT BL = %d\nCONSTANT MaxW = %d\nCONSTANT MaxLen = %d\nCONSTANT Vals <- %s\n"
-                            "INVARIANT Inv_Sat\nINVARIANT Inv_ValLC\nINVARIANT Inv_Bool\nINVARIANT EmitBeh\nCHECK_DEADLOCK FALSE\n" % (P, BL, maxw, maxlen, vals))
+        open(cf, "w").write("SPECIFICATION Spec\nCONSTANT P = %d\nCONSTANT BL = %d\nCONSTANT MaxW = %d\nCONSTANT MaxLen = %d\nCONSTANT Vals <- %s\nCONSTANT Wide = %s\n"
+                            "INVARIANT Inv_Sat\nINVARIANT Inv_ValLC\nINVARIANT Inv_Bool\nINVARIANT EmitBeh\nCHECK_DEADLOCK FALSE\n" % (P, BL, maxw, maxlen, vals, "TRUE" if wide else "FALSE"))
         res = tlc.run("Tracer", cfg=cf, workers=12, heap="6g")
-    run.add_tlc(res, "Tracer.tla: Sat / value==wire / booleans on the mechanism model, MaxLen=%d" % maxlen)
+    run.add_tlc(res, "Tracer.tla: Sat / value==wire / booleans on the mechanism model, MaxLen=%d%s" % (maxlen, ", full operator set" if wide else ""))
     if res.violated:
         run.violation({"stage": "design", "invariant": res.violated, "tlc_state": res.state,
                        "summary": "Tracer.tla (mechanism transcription of the gadgets) violates %s: %s" % (res.violated, res.state.get("hist"))})
@@ -49,10 +52,19 @@ def to_program(pid, beh):
             reg += 1
         elif a == "assert_nonzero":
             cur.append({"op": "meth", "name": "assert_nonzero", "a": {"r": objreg[h["i"] - 1]}}); reg += 1
-        elif a in ("add", "sub", "mul", "lt"):
+        elif a in ("add", "sub", "mul", "lt", "le", "gt", "ge", "eq", "ne", "floordiv", "mod", "and", "or", "xor"):
             cur.append({"op": "bin", "name": a, "a": {"r": objreg[h["i"] - 1]}, "b": {"r": objreg[h["j"] - 1]}}); objreg.append(reg); reg += 1
         elif a in ("addc", "mulc"):
             cur.append({"op": "bin", "name": a[:3], "a": {"r": objreg[h["i"] - 1]}, "b": {"c": h["v"]}}); objreg.append(reg); reg += 1
+        elif a in ("lshiftc", "rshiftc", "powc"):
+            cur.append({"op": "bin", "name": {"lshiftc": "lshift", "rshiftc": "rshift", "powc": "pow"}[a], "a": {"r": objreg[h["i"] - 1]}, "b": {"c": h["v"]}})
+            if not (a == "rshiftc" and h["v"] >= BLV):      # x >> c with c >= bitlength is the plain integer 0, not an object
+                objreg.append(reg)
+            reg += 1
+        elif a in ("neg", "abs", "invert"):
+            cur.append({"op": "un", "name": a, "a": {"r": objreg[h["i"] - 1]}}); objreg.append(reg); reg += 1
+        elif a.startswith("assert_") and a not in ("assert_zero", "assert_nonzero"):
+            cur.append({"op": "meth", "name": a, "a": {"r": objreg[h["i"] - 1]}, "args": [{"r": objreg[h["j"] - 1]}]}); reg += 1
         elif a in ("check_zero", "check_positive"):
             cur.append({"op": "meth", "name": a, "a": {"r": objreg[h["i"] - 1]}}); objreg.append(reg); reg += 1
         elif a in ("assert_zero", "to_bits"):
@@ -97,12 +109,21 @@ def impl_of(tr, P, maxw):
 
 
 def run_conformance(run, tier):
-    P, BL, maxw = 67, 2, 24
+    P, BL, maxw = 67, BLV, 24
     behs = gen(run, P, BL, maxw, 3 if tier == "quick" else 4, "ValsQuick" if tier == "quick" else "ValsThorough")
     if run.violations or not behs:
         return
     if len(behs) > 40000:
         behs = behs[::len(behs) // 40000 + 1]
+    # the full operator set (comparisons, equality, abs, shifts, bitwise, powers, floor division, binary assertions): one call shorter
+    wide = gen(run, P, BL, maxw, 3, "ValsQuick" if tier == "quick" else "ValsThorough", wide=True)
+    if run.violations:
+        return
+    seen = set(json.dumps(b["hist"]) for b in behs)
+    wide = [b for b in wide if json.dumps(b["hist"]) not in seen]
+    if len(wide) > 40000:
+        wide = wide[::len(wide) // 40000 + 1]
+    behs = behs + wide
     progs = [to_program("trc/%d" % i, b) for i, b in enumerate(behs)]
     traces = common.run_programs({"P": P, "bitlength": BL, "resolution": 1}, progs)
     pairs = []
